@@ -26,6 +26,8 @@ def gen(run):
     ex = [pl.case(P, c, OPS) for c in pl.files(alpha, maxl)]
     # copies of the path / the needle back to back: a rejected candidate directly followed by the next one
     ex += [pl.case(P, c, OPS) for c in pl.files(pl.adjacent(P), maxl - 1)]
+    # lines as long as the usual fixed buffers (PATH_MAX, stdio block)
+    ex += [pl.case(P, c, OPS) for c in pl.long_line_files(P)]
     # printf directives in lines that are kept
     ex += [pl.case(P, c, OPS) for c in pl.files(pl.percent(P), maxl - 1)]
     small = [pl.case(pl.P_PLAIN, c, OPS) for c in pl.files(pl.alphabet18(pl.P_PLAIN), 2)]
